@@ -77,6 +77,10 @@ struct Case {
     globs: Vec<String>,
     types: Vec<(bool, String)>,
     explicit: Option<Vec<u8>>,
+    /// the explicitly named path is a FIFO (`mkfifo`) instead of a regular file
+    explicit_fifo: bool,
+    /// `/dev/null` (a character device) is named on the command line as well
+    devnull: bool,
 }
 
 fn list_or_dash(v: Vec<String>) -> String {
@@ -91,7 +95,7 @@ impl Case {
     fn line(&self) -> String {
         let f: String = self.flags.iter().map(|b| if *b { '1' } else { '0' }).collect();
         format!(
-            "walk F={} U={} N={} M={} J={} E={} R={} G={} GL={} IF={} GB={} TY={} X={}",
+            "walk F={} U={} N={} M={} J={} E={} R={} G={} GL={} IF={} GB={} TY={} X={} XF={} DN={}",
             f,
             self.unrestricted,
             self.no_ignore as u8,
@@ -105,6 +109,8 @@ impl Case {
             list_or_dash(self.globs.iter().map(|g| hex(g.as_bytes())).collect()),
             list_or_dash(self.types.iter().map(|(n, g)| format!("{}{}", *n as u8, hex(g.as_bytes()))).collect()),
             self.explicit.as_ref().map(|g| hex(g)).unwrap_or("~".into()),
+            self.explicit_fifo as u8,
+            self.devnull as u8,
         )
     }
     fn parse(s: &str) -> Option<Case> {
@@ -176,6 +182,8 @@ impl Case {
             globs: items("GB").into_iter().map(|g| unhex(g).and_then(|b| String::from_utf8(b).ok())).collect::<Option<Vec<_>>>()?,
             types,
             explicit: opt("X")?,
+            explicit_fifo: kv.get("XF").copied() == Some("1"),
+            devnull: kv.get("DN").copied() == Some("1"),
         })
     }
     /// the flag record the command line amounts to (the model's `Flags`)
@@ -278,6 +286,8 @@ fn gen_case(rng: &mut Rng) -> Case {
         globs: vec![],
         types: vec![],
         explicit: None,
+        explicit_fifo: false,
+        devnull: false,
     };
     gen_entries(rng, &mut c.entries, b"", 0);
     for i in 0..8 {
@@ -357,8 +367,11 @@ fn gen_case(rng: &mut Rng) -> Case {
         let files: Vec<&Vec<u8>> = c.entries.iter().filter(|(_, d)| !**d).map(|(p, _)| p).collect();
         if !files.is_empty() {
             c.explicit = Some((*rng.pick(&files)).clone());
+            // explicitly named paths that are neither regular files nor directories
+            c.explicit_fifo = rng.chance(1, 3);
         }
     }
+    c.devnull = rng.chance(1, 12);
     c
 }
 
@@ -409,7 +422,15 @@ fn run_case(c: &Case, env: &mut Env, drv: &mut Driver, rep: &mut Report, quiet: 
             std::fs::create_dir_all(&full).unwrap();
         } else {
             std::fs::create_dir_all(full.parent().unwrap()).unwrap();
-            std::fs::write(&full, b"x\n").unwrap();
+            if c.explicit_fifo && c.explicit.as_ref() == Some(p) {
+                // `--files` only lists it; nothing opens the FIFO, so no writer is needed
+                let st = Command::new("mkfifo").arg(&full).status();
+                if !st.map(|s| s.success()).unwrap_or(false) {
+                    std::fs::write(&full, b"x\n").unwrap();
+                }
+            } else {
+                std::fs::write(&full, b"x\n").unwrap();
+            }
         }
     }
     let mut add_entry = |entries: &mut BTreeMap<Vec<u8>, bool>, loc: &Loc, rel: &str, is_dir: bool| {
@@ -505,6 +526,12 @@ fn run_case(c: &Case, env: &mut Env, drv: &mut Driver, rep: &mut Report, quiet: 
     if let Some(a) = &explicit_arg {
         cmd.arg(os(a));
     }
+    if c.devnull {
+        if !(root_arg.is_some() || explicit_arg.is_some()) {
+            cmd.arg(os(&root_given));
+        }
+        cmd.arg("/dev/null");
+    }
     let o = cmd.output().expect("run rg");
     if !(o.status.success() || o.status.code() == Some(1)) {
         out.push(mk("impl_vs_model", "", TIE, format!("rg failed: {}", String::from_utf8_lossy(&o.stderr))));
@@ -526,6 +553,14 @@ fn run_case(c: &Case, env: &mut Env, drv: &mut Driver, rep: &mut Report, quiet: 
             l.to_vec()
         };
         listed.insert(rel);
+    }
+    if c.devnull {
+        if !quiet {
+            rep.branch("root:explicit-/dev/null-too");
+        }
+        if !listed.contains(&b"/dev/null"[..]) {
+            out.push(mk("impl_vs_spec", "", "a path named on the command line is always searched (theorem explicit_always_searched): /dev/null, a character device", "/dev/null was named explicitly but rg --files does not list it".to_string()));
+        }
     }
     // ---- the model
     let f: String = c.effective_flags().iter().map(|b| if *b { '1' } else { '0' }).collect();
@@ -639,6 +674,9 @@ fn run_case(c: &Case, env: &mut Env, drv: &mut Driver, rep: &mut Report, quiet: 
         rep.branch(&format!("root:{}", ["none(./)", "relative", "absolute", "dot"][c.mode]));
         if c.explicit.is_some() {
             rep.branch("root:explicit-file-too");
+            if c.explicit_fifo {
+                rep.branch("root:explicit-path-is-a-FIFO");
+            }
             if let Some(p) = &c.explicit {
                 let idx = files.iter().position(|(q, _)| *q == p);
                 if let Some(i) = idx {
@@ -765,7 +803,7 @@ fn main() {
         "one evaluation = one file of a generated tree under one command line; non-trivial = at least two rule sources are present and the command lists some files and hides others (distinct by case text). \
          Trees p2/p1/R/… with rule files (.rgignore, .ignore, .gitignore, .git/info/exclude) at depths -2…+3 relative to the search root, global gitignore via XDG_CONFIG_HOME, --ignore-file, -g, --type-add/-t/-T, \
          .git at any of those depths or nowhere, hidden names, names ending in '.', conflicting ignore/whitelist lines (names, *.ext, anchored paths, dir-only, negations), every flag of the property incl. --no-ignore and -u/-uu, \
-         roots given as nothing (./), relative, absolute, '.', plus an explicitly named file. Rule lines stay inside the gitignore grammar on which C04 agrees with git (no bracket classes, no lone '!'); --max-depth, symlinks and --iglob are not generated.",
+         roots given as nothing (./), relative, absolute, '.', plus an explicitly named file (a regular file, or a FIFO made with mkfifo in a third of these cases) and now and then /dev/null as a further explicit path. Rule lines stay inside the gitignore grammar on which C04 agrees with git (no bracket classes, no lone '!'); --max-depth, symlinks and --iglob are not generated.",
     );
     std::fs::create_dir_all(&args.scratch).unwrap();
     // nothing above the scratch directory may influence the walk
